@@ -33,7 +33,7 @@ def judge(ctx, rep, trigger_of=None):
             ctx.violation("%s_h%d_%s" % (rep["mode"], c["index"], c["variant"]), {
                 "kind": "twin-run-divergence", "mode": rep["mode"], "genesis": c["genesis"], "variant": c["variant"],
                 "vseed": int(c["extra"].split("=")[1]) if c.get("extra") else 0,
-                "divergence": c["divergence"], "signature": sig, "history": c["history"], "descr": c.get("descr"),
+                "divergence": c["divergence"], "signature": sig, "hname": c.get("hname", ""), "history": c["history"], "descr": c.get("descr"),
                 "how": "./check replay <this file>"})
     return n
 
@@ -52,7 +52,7 @@ def coverage(rep):
 def replay(ctx, rp, trigger_of=None):
     vh = common.build_harness()
     tmp = os.path.join(ctx.scratch, "replay_in.json")
-    json.dump({"genesis": rp["genesis"], "vseed": rp.get("vseed", 0), "history": rp["history"]}, open(tmp, "w"))
+    json.dump({"genesis": rp["genesis"], "hname": rp.get("hname", ""), "vseed": rp.get("vseed", 0), "history": rp["history"]}, open(tmp, "w"))
     rep = run_twin(ctx, vh, rp["mode"], 1, 1, extra=["-replay", tmp])
     print("replay: %d comparisons, %d divergent" % (rep["comparisons"], rep["divergent"]))
     for c in rep["cases"]:
